@@ -13,7 +13,7 @@ RULES = {
     "T4": "OrderQueue::pop terminates: it loops only after consuming a ticket on a map miss and reports empty only when the ticket queue is exhausted",
     "T6": "an order parked for the rest of the call displays nothing: display(parked) == 0 is provable from the path facts (otherwise the call can return with quantity remaining while displayed liquidity is left)",
     "T7": "every resting order is reachable by pop: the only map insertion is OrderQueue::push, which also appends the ticket of the order's own id; the queue constructors (from_vec / From<Vec> used by every restore path / FromStr / Deserialize) push every element once; nobody else touches the map or the tickets - otherwise an order that displays quantity can never be matched and match_order returns with quantity remaining",
-    "T8": "a match request returns, it does not panic: the only panic-capable sites in the call closure of match_order are the checked subtractions / additions of match_against, each guarded on its path (C05 A4), the `quantity * price` of record_execution (excluded by the property's precondition: sums fit in 64 bits) and Transaction::new's `expect` on the time since the epoch; any other site (an unchecked `a - b` on a user-supplied timestamp, an unwrap, an index) is reported",
+    "T8": "a match request returns, it does not panic: the only panic-capable sites in the call closure of match_order are the checked subtractions / additions of match_against, each guarded on its path (C05 A4), the `quantity * price` of record_execution (excluded by the property's precondition: sums fit in 64 bits) and an `expect`/`unwrap` applied directly to `SystemTime::duration_since(.., UNIX_EPOCH)` (Transaction::new's, or a shared clock helper's: the system clock is not before 1970); any other site (an unchecked `a - b` on a user-supplied timestamp, an unwrap, an index) is reported",
     "T0": "coverage: the match loop has iteration paths and exit paths",
 }
 
@@ -38,6 +38,35 @@ def remaining_local(r, marker):
                 if z == Int(0) and isinstance(x, tuple) and x[0] == "havoc" and x[1] == key:
                     return x
     return None
+
+
+def _clock_since_epoch(body, bb):
+    """is the expect/unwrap at block bb applied to SystemTime::duration_since(.., UNIX_EPOCH)'s own result (directly or
+    through single-assignment moves into named locals)?"""
+    t = body.blocks[bb]["term"]
+    if t["k"] != "call" or not t["args"] or "SystemTimeError" not in (t["callee"].get("path_args") or ""):
+        return False
+    a0 = t["args"][0]
+    if a0.get("k") not in ("move", "copy") or a0["place"]["p"]:
+        return False
+    loc = a0["place"]["l"]
+    for _ in range(6):
+        cdefs = [blk["term"] for blk in body.blocks if blk["term"]["k"] == "call" and blk["term"].get("dest") and blk["term"]["dest"]["l"] == loc]
+        sdefs = [st for blk in body.blocks for st in blk.get("stmts", []) if st.get("k") == "assign" and st["place"]["l"] == loc]
+        if len(cdefs) + len(sdefs) != 1:
+            return False
+        if sdefs:
+            rv = sdefs[0]["rv"]
+            if sdefs[0]["place"]["p"] or rv["k"] != "use" or rv["op"].get("k") not in ("move", "copy") or rv["op"]["place"]["p"]:
+                return False
+            loc = rv["op"]["place"]["l"]
+            continue
+        d = cdefs[0]
+        if d["dest"]["p"] or d["callee"] is None or not d["callee"]["path"].endswith("SystemTime::duration_since"):
+            return False
+        a = d["args"]
+        return len(a) == 2 and a[1].get("k") == "const" and "UNIX_EPOCH" in (a[1].get("text") or "")
+    return False
 
 
 def run(ctx, chk):
@@ -82,6 +111,8 @@ def run(ctx, chk):
                 own_sites.add((d, bb, kind, span))
                 continue        # match_order's own arithmetic: discharged on its paths below
             okk = (owner.name, kind) in allowed and (owner.name != "new" or "Transaction" in (owner.impl_self or ""))
+            if not okk and kind in ("call:expect", "call:unwrap") and _clock_since_epoch(bd, bb):
+                okk = True      # the same exemption as Transaction::new's, wherever the clock read lives (a shared helper)
             chk.require(okk, "T8", "%s:%s" % (owner.defp, kind), span,
                         "%s in %s is reachable from match_order: a match request could panic instead of returning" % (kind, owner.defp))
     chk.require(n8 >= 10, "T8", "sites-found", b.span, "only %d panic-capable sites found in the closure of match_order" % n8)
